@@ -1,5 +1,5 @@
 # replay of a bounded stand-in violation: re-run native/c01_backends.py
 import sys
-print("CXgate(0.3,).H | (q[1], q[0]) of 2 on fock: ('quad', 0, 0.0) = [0.2512, 0.8128], the documented action gives [-0.127, 0.7705]")
+print("Dgate(0.35, 0.6) | q[0] of 2 after Del | q[0] (indices shifted by one) on fock: raised ValueError: axes don't match array")
 print('REPLAY-VIOLATION')
 sys.exit(1)
